@@ -19,6 +19,16 @@ CHECKS = {'C01': {'design_ref': 'DESIGN.md 3/C01',
                  'and batch_size=2), depth 2 in thorough (a second transform applied to the result). Oracle: result class, points == transform applied to the '
                  'bare array and == reference matrix product, every landmark group moved by the same map, connectivity/trilist/labels/colours/texture/tcoords '
                  'carried unchanged, input shape, landmarks and transform unchanged (observation digests), no observable aliasing between result and input.'},
+ 'C03': {'design_ref': 'DESIGN.md 3/C03',
+         'note': 'finite operand letters stand for all parameter values; thorough level 3 uses a reduced 8-letter alphabet',
+         'technique': 'explicit-state BFS over operation histories on the implementation, each transition checked against a reference model',
+         'text': 'Compose programs are explored as a state machine: state = the transform built so far (plus the untouched operand pool), model = the ordered '
+                 'list of operand maps; operations = compose_before / compose_after / both in-place variants x every operand letter (12 homogeneous-family '
+                 'classes incl. alignments, chain, TPS, piecewise affine, dimension slicing; 2-D, 3-D and a near-identity world that keeps points inside warp '
+                 'domains) with the state as receiver and as argument, depth 2 (quick) / 3 (thorough). Oracle per step: composition law on probe points, '
+                 'operands unchanged (also after the following step), in-place accepted iff the documented class gate and then same map and still an honest '
+                 'member of its class, homogeneous x homogeneous gives a single invertible non-alignment homogeneous transform whose class is honest, '
+                 'Affine.decompose recomposes.'},
  'C04': {'design_ref': 'DESIGN.md 3/C04',
          'note': 'TPS is asked the interpolation / reverse-fit clauses only (it declares no true inverse); parameter letters stand for the continuous '
                  'quantifier',
